@@ -499,6 +499,7 @@ func famTracking(g *Gen) {
 	m := &mirror{tracked: map[int]bool{}, spent: map[int]bool{}, leaf: map[int]bool{}, parents: map[int][]int{}, operands: map[int][]int{}}
 	ds := g.shape(0, 2, 2)
 	var all []int
+	isGrad := map[int]bool{}
 	newLeaf := func() {
 		tr := g.chance(0.6)
 		x := g.leafDistinct(ds, tr, -1.5, 1.5)
@@ -666,7 +667,9 @@ func famTracking(g *Gen) {
 				}
 			}
 		case 10:
-			if m.resetAllowed(x, all) {
+			// a tensor returned by Gradient() is not reset: repeated Gradient() calls return the SAME object, which the
+			// model represents by separate nodes (resetting one would show on the other; not a defect of the library)
+			if !isGrad[x] && m.resetAllowed(x, all) {
 				tr := g.chance(0.5)
 				g.do(Cmd{Op: OpReset, T: x, Flag: tr})
 				m.tracked[x], m.spent[x], m.leaf[x], m.parents[x] = tr, false, true, nil
@@ -677,6 +680,7 @@ func famTracking(g *Gen) {
 			if o.Kind == "tensor" {
 				// gradient tensors are spent and untracked
 				m.parents[y], m.tracked[y], m.spent[y], m.leaf[y] = nil, false, true, true
+				isGrad[y] = true
 				all = append(all, y)
 				g.tag("gradient-tensor-used")
 			}
